@@ -1,6 +1,77 @@
-(* C01 — property theorems (in progress). *)
+(* C01 — the stored block-header chain is always fully valid, whatever peers
+   send.  Statements only; proofs are in C01/Proofs.v over the shared
+   invariant S2/Invariant.v.
+
+   Hypotheses (all explicit, on the chain-parameter set and on the history):
+   - wf_params: checkpoint heights strictly ascending and above the genesis
+     block, retarget interval > 0, in-memory window capacity >= 1;
+   - no_collision: hash tokens identify headers (two headers of the history or
+     the genesis block with the same hash are the same header) and no header
+     hashes to the genesis block's previous-block field;
+   - wf_hist: every headers message is shorter than the in-memory window
+     (2000 < 10000 in the code), rollBackToHeight is not something peers can
+     invoke, and fewer than 1000000 headers in total (the model's height
+     arithmetic is exact below that bound). *)
 From stdpp Require Import list.
 From Coq Require Import ZArith.
-From Verif Require Import S2.Model C01.Spec.
+From Verif Require Import S2.Model C01.Spec S2.Basics S2.Invariant C01.Proofs.
 Open Scope Z_scope.
-Example C01_placeholder : True. Proof. exact I. Qed.
+
+(* after any history the reported chain is a valid chain: there are acceptance
+   times, each the clock reading of some headers message of the history, at
+   which every header was a valid successor of its prefix; checkpoints hold *)
+Theorem C01_chain_always_valid : forall P gfh ops,
+  wf_params P -> no_collision P ops -> wf_hist P ops ->
+  let s := run P (init_state P gfh) ops in
+  trap s = false /\
+  exists times, length times = length (chain s) /\
+    Forall (fun t => t ∈ hist_nows ops) (tail times) /\
+    valid_chain P (zip (chain s) times) = true.
+Proof. exact chain_always_valid. Qed.
+Print Assumptions C01_chain_always_valid.
+
+(* ... and so after every prefix of it (at every instant) *)
+Theorem C01_chain_valid_every_instant : forall P gfh pre post,
+  wf_params P -> no_collision P (pre ++ post) -> wf_hist P (pre ++ post) ->
+  let s := run P (init_state P gfh) pre in
+  trap s = false /\
+  exists times, length times = length (chain s) /\
+    Forall (fun t => t ∈ hist_nows pre) (tail times) /\
+    valid_chain P (zip (chain s) times) = true.
+Proof. exact chain_valid_every_instant. Qed.
+Print Assumptions C01_chain_valid_every_instant.
+
+(* by-hash, by-height and tip answers describe one chain *)
+Theorem C01_lookups_agree : forall P gfh ops,
+  wf_params P -> no_collision P ops -> wf_hist P ops ->
+  let s := run P (init_state P gfh) ops in
+  (forall x h i, fetch_header (chain s) x = Some (h, i) <-> at_h (chain s) i = Some h /\ hid h = x) /\
+  (exists t, chain_tip s = Some t /\ at_h (chain s) (tip_height s) = Some t /\
+             fetch_header (chain s) (hid t) = Some (t, tip_height s)) /\
+  NoDup (map hid (chain s)).
+Proof. exact lookups_agree_thm. Qed.
+Print Assumptions C01_lookups_agree.
+
+(* every store write the model issues is well-formed (contiguous heights, new
+   hashes), at every point of every history: this is what lets C07's
+   refinement theorem lift the list stores to the real stores *)
+Theorem C01_never_traps : forall P gfh pre post,
+  wf_params P -> no_collision P (pre ++ post) -> wf_hist P (pre ++ post) ->
+  trap (run P (init_state P gfh) pre) = false.
+Proof. exact never_traps. Qed.
+Print Assumptions C01_never_traps.
+
+(* the hypotheses are satisfiable by a history with a valid batch, a batch
+   valid only up to some index, a duplicate, a heavier fork and a checkpoint *)
+Example C01_nonvacuous :
+  let P := ex_P [(4, 204)] in
+  wf_params P /\ no_collision P ex_ops /\ wf_hist P ex_ops /\
+  map (fun k => map hid (chain (run P (init_state P 7) (take k ex_ops)))) [2; 3; 4; 5; 7]%nat =
+    [[100; 101; 102]; [100; 101; 102]; [100; 101; 102]; [100; 101; 202; 203]; [100; 101; 202; 203; 204]].
+Proof.
+  split; [|split; [|split]].
+  - split; cbn; lia.
+  - apply no_collision_b_sound. vm_compute. reflexivity.
+  - split; [repeat constructor; vm_compute; reflexivity|vm_compute; discriminate].
+  - vm_compute. reflexivity.
+Qed.
